@@ -1,6 +1,7 @@
 package c09x
 
 import (
+	"crypto/sha1"
 	"encoding/binary"
 	"fmt"
 	"math/big"
@@ -83,4 +84,25 @@ func ServerResult(r exchange.ServerExchangeResult, err error) string {
 	var salt [8]byte
 	binary.LittleEndian.PutUint64(salt[:], uint64(r.ServerSalt))
 	return fmt.Sprintf("done %s %s %s", new(big.Int).SetBytes(r.Key.Value[:]).String(), hc.Hex(r.Key.ID[:]), hc.Hex(salt[:]))
+}
+
+// SHA1 of b.
+func SHA1(b []byte) []byte {
+	h := sha1.Sum(b)
+	return h[:]
+}
+
+// OutcomeClass is "done" or "failed <tag>" (for distribution counters).
+func OutcomeClass(res string) string {
+	f := strings.Fields(res)
+	if len(f) >= 2 && f[0] == "failed" {
+		if strings.HasPrefix(f[1], "other:") {
+			return "failed other"
+		}
+		return "failed " + f[1]
+	}
+	if len(f) >= 1 {
+		return f[0]
+	}
+	return "?"
 }
